@@ -222,6 +222,28 @@ def check_property_file(pid):
     return res
 
 
+def coqchk_property(pid, timeout=1500):
+    """thorough tier: independent re-check of Properties/<pid>.vo and everything it depends on.
+    returns dict(ok, axioms_outside_stdlib, summary)"""
+    rc, out = sh('timeout %d coqchk -Q . SV -o -silent SV.Properties.%s' % (timeout, pid), cwd=COQ, timeout=timeout + 30)
+    res = {'ok': False, 'rc': rc, 'own_axioms': [], 'summary': ''}
+    if rc != 0:
+        res['summary'] = out[-800:]
+        return res
+    own = re.findall(r'^\s+(SV\.[\w.\']+)\s*$', out.split('* Axioms:')[-1].split('* Constants/Inductives relying on type-in-type')[0], re.M) if '* Axioms:' in out else []
+    flags = {}
+    for key, pat in (('type_in_type', r'relying on type-in-type: (.*)'),
+                     ('unsafe_fixpoints', r'relying on unsafe \(co\)fixpoints: (.*)'),
+                     ('positivity_assumed', r'whose positivity is assumed: (.*)')):
+        m = re.search(pat, out)
+        flags[key] = m.group(1).strip() if m else '?'
+    res['own_axioms'] = own
+    res['flags'] = flags
+    res['ok'] = not own and all(v == '<none>' for v in flags.values())
+    res['summary'] = 'coqchk ok; axioms declared by this development: %s; %s' % (own or 'none', flags)
+    return res
+
+
 def newest_mtime(paths):
     m = 0
     for p in paths:
@@ -367,6 +389,12 @@ def run_check(prop, argv):
     pf = check_property_file(pid)
     hits = forbidden_scan()
     proof_ok = pf['ok'] and not hits
+    chk = None
+    if tier == 'thorough' and pf['ok'] and not replay:
+        chk = coqchk_property(pid)
+        if not chk['ok']:
+            proof_ok = False
+            notes.append('coqchk: ' + chk['summary'][-300:])
     if hits:
         notes.append('forbidden constructs: ' + '; '.join(hits[:5]))
     mok, mlog = build_model_cli(pid)
@@ -503,6 +531,8 @@ def run_check(prop, argv):
     extra = getattr(prop, 'extra_evidence', None)
     if extra:
         ev['coverage'].update(extra())
+    if chk:
+        ev['coverage']['coqchk'] = chk['summary'][-600:]
     if notes:
         ev['coverage']['notes'] = notes
     os.makedirs(os.path.join(ROOT, 'evidence'), exist_ok=True)
